@@ -1,0 +1,138 @@
+//go:build verif
+
+// Contracts for the deductive verifier under /verif (comment-only; never compiled into oxy).
+package stickycookie
+
+// ---- C11: cookie value codecs ---------------------------------------------------------------------------------------------------
+// net/url is outside oxy. URL.String() is the uninterpreted ustring(u) (a function of the URL's fields); url.Parse is
+// characterised by p_ok / p_scheme / p_host / p_path of its input. matches(s, u): s parses to u's (scheme, host, path), the
+// identity the balancers use for pool members.
+//@ spec ustring(u *url.URL) string reads url.URL.Scheme url.URL.Host url.URL.Path url.URL.RawPath url.URL.RawQuery url.URL.User url.URL.Opaque url.URL.Fragment url.URL.RawFragment url.URL.ForceQuery url.URL.OmitHost
+//@ spec nstring(scheme string, host string, path string) string
+//@ spec p_ok(s string) bool
+//@ spec p_scheme(s string) string
+//@ spec p_host(s string) string
+//@ spec p_path(s string) string
+//@ spec hsh(salt string, input string) string
+//@ pred matches(s string, u *url.URL) = p_ok(s) && p_scheme(s) == u.Scheme && p_host(s) == u.Host && p_path(s) == u.Path
+//@ pred bare(u *url.URL) = u.User == nil && u.RawQuery == "" && u.Opaque == "" && u.Fragment == "" && u.RawFragment == "" && u.RawPath == "" && !u.ForceQuery && !u.OmitHost
+
+// nstring names the text of a URL that has nothing but scheme, host and path (definition of nstring in terms of URL.String).
+//@ axiom nstring_def: forall u *url.URL :: bare(u) ==> ustring(u) == nstring(u.Scheme, u.Host, u.Path)
+
+//@ extern (*net/url.URL).String
+//@   params self
+//@   modifies nothing
+//@   nopanic
+//@   ensures result == ustring(self)
+
+//@ extern net/url.Parse
+//@   params rawURL
+//@   modifies nothing
+//@   nopanic
+//@   ensures (result1 == nil) <==> p_ok(rawURL)
+//@   ensures result1 == nil ==> result0 != nil && fresh(result0) && result0.Scheme == p_scheme(rawURL) && result0.Host == p_host(rawURL) && result0.Path == p_path(rawURL)
+
+//@ func areURLEqual
+//@   props C11
+//@   requires u != nil
+//@   modifies nothing
+//@   ensures (result1 == nil) <==> p_ok(normalized)
+//@   ensures result1 == nil ==> (result0 <==> matches(normalized, u))
+
+//@ func (*RawValue).Get
+//@   props C11
+//@   requires raw != nil
+//@   modifies nothing
+//@   ensures the_url_text: result == ustring(raw)
+
+//@ func (*RawValue).FindURL
+//@   props C11
+//@   requires pool_members: forall i int :: 0 <= i && i < len(urls) ==> urls[i] != nil
+//@   modifies nothing
+//@   ensures never_outside_the_pool: result0 != nil ==> (exists i int :: 0 <= i && i < len(urls) && result0 == urls[i]) && matches(raw, result0) && result1 == nil
+//@   ensures finds_a_member_that_matches: (exists i int :: 0 <= i && i < len(urls) && urls[i] != nil && matches(raw, urls[i])) && (forall i int :: 0 <= i && i < len(urls) ==> urls[i] != nil) ==> result0 != nil
+//@   ensures unparsable_is_an_error_not_a_server: !p_ok(raw) ==> result0 == nil
+//@   loop 1 invariant -1 <= rangeindex && rangeindex < len(urls)
+//@   loop 1 invariant forall j int :: 0 <= j && j <= rangeindex ==> p_ok(raw) && !matches(raw, urls[j])
+
+//@ func (*HashValue).hash
+//@   props C11
+//@   trusted
+//@   nopanic
+//@   modifies nothing
+//@   ensures result == hsh(v.Salt, input)
+
+//@ func normalized
+//@   props C11
+//@   requires u != nil
+//@   modifies nothing
+//@   ensures scheme_host_path_only: result == nstring(u.Scheme, u.Host, u.Path)
+
+//@ func (*HashValue).Get
+//@   props C11
+//@   requires v != nil && raw != nil
+//@   modifies nothing
+//@   ensures cookie_names_what_lookup_compares: result == hsh(v.Salt, nstring(raw.Scheme, raw.Host, raw.Path))
+
+//@ func (*HashValue).FindURL
+//@   props C11
+//@   requires v != nil
+//@   requires pool_members: forall i int :: 0 <= i && i < len(urls) ==> urls[i] != nil
+//@   modifies nothing
+//@   ensures never_outside_the_pool: result0 != nil ==> (exists i int :: 0 <= i && i < len(urls) && result0 == urls[i]) && raw == hsh(v.Salt, nstring(result0.Scheme, result0.Host, result0.Path))
+//@   ensures finds_a_member_with_this_hash: (exists i int :: 0 <= i && i < len(urls) && raw == hsh(v.Salt, nstring(urls[i].Scheme, urls[i].Host, urls[i].Path))) && (forall i int :: 0 <= i && i < len(urls) ==> urls[i] != nil) ==> result0 != nil
+//@   ensures never_an_error: result1 == nil
+//@   loop 1 invariant -1 <= rangeindex && rangeindex < len(urls)
+//@   loop 1 invariant forall j int :: 0 <= j && j <= rangeindex ==> raw != hsh(v.Salt, nstring(urls[j].Scheme, urls[j].Host, urls[j].Path))
+
+// Any CookieValue, as the fallback chain sees it: lookup answers a pool member or nothing.
+//@ iface github.com/vulcand/oxy/v2/roundrobin/stickycookie.CookieValue.Get
+//@   params self raw
+//@   modifies nothing
+
+//@ type FallbackValue
+//@   immutable from to
+
+//@ func (*FallbackValue).Get
+//@   props C11
+//@   requires v != nil
+//@   modifies nothing
+//@   ensures minted_by_the_new_encoding: calls(v.to.Get) == 1 && callarg(v.to.Get, 0, 0) == raw && result == callres(v.to.Get, 0, 0)
+
+//@ func (*FallbackValue).FindURL
+//@   props C11
+//@   requires v != nil
+//@   ensures never_outside_the_pool: result0 != nil ==> (exists i int :: 0 <= i && i < len(urls) && result0 == urls[i])
+//@   ensures old_encoding_first_then_new: (calls(v.from.FindURL) == 1 && callres(v.from.FindURL, 0, 0) != nil ==> result0 == callres(v.from.FindURL, 0, 0) && calls(v.to.FindURL) == 0) && (callres(v.from.FindURL, 0, 0) == nil ==> calls(v.to.FindURL) == 1 && result0 == callres(v.to.FindURL, 0, 0))
+
+// AESValue: the sealed text is outside the contract language (crypto/cipher, base64, fmt): Get and fromValue are covered by the
+// bounded stand-in /verif/bounded/C11; what is proved is that the lookup loop answers a member matching the opened text or
+// nothing, and that fromValue cannot panic on any cookie text.
+// standard library helpers used by the AES codec: assumed to compute on their arguments only (no oxy state), without panicking
+//@ extern (*encoding/base64.Encoding).DecodeString
+//@   params self s
+//@   modifies nothing
+//@   nopanic
+//@ iface crypto/cipher.AEAD.Open
+//@   params self dst nonce ciphertext additionalData
+//@   modifies nothing
+//@ extern strconv.ParseInt
+//@   params s base bitSize
+//@   modifies nothing
+//@   nopanic
+
+//@ func (*AESValue).FindURL
+//@   props C11
+//@   requires v != nil
+//@   requires pool_members: forall i int :: 0 <= i && i < len(urls) ==> urls[i] != nil
+//@   modifies nothing
+//@   ensures never_outside_the_pool: result0 != nil ==> (exists i int :: 0 <= i && i < len(urls) && result0 == urls[i]) && result1 == nil
+//@   ensures undecodable_is_an_error_not_a_server: callres(fromValue, 0, 1) != nil ==> result0 == nil
+//@   loop 1 invariant -1 <= rangeindex && rangeindex < len(urls)
+
+//@ func (*AESValue).fromValue
+//@   props C11
+//@   requires v != nil
+//@   modifies nothing
+//@   nopanic
